@@ -174,6 +174,23 @@ def type_queries(sems, nW, maxv=2, maxf=2, extra=()):
     return out
 
 
+def world_queries(nW):
+    """World-level queries (V, F): one verifying world with one or two falsifying worlds, and two verifying worlds with one
+    falsifying world. Worlds of the same type may differ in how many CLAUSES of a conditional's CNF they violate, which a
+    type-level query cannot separate."""
+    out = []
+    ws = range(nW)
+    for v in ws:
+        for k in (1, 2):
+            for fs in itertools.combinations([w for w in ws if w != v], k):
+                out.append((1 << v, sum(1 << w for w in fs)))
+    for vs in itertools.combinations(ws, 2):
+        for f in ws:
+            if f not in vs:
+                out.append((sum(1 << w for w in vs), 1 << f))
+    return out
+
+
 def all_semantic_queries(nW):
     """All 3^nW pairs of disjoint world sets."""
     out = []
